@@ -7,7 +7,7 @@ from . import c05
 PROPERTY = 'C12'
 BUDGET = {'quick': {'seconds': 1500, 'xreplay_every': 100}, 'thorough': {'seconds': 6000, 'xreplay_every': 2000}}
 NONTRIVIAL = {'quick': ['resume.publish', 'resume.pubrel', 'resume.held-back', 'resume.released-by-window', 'clean-reconnect.cleared', 'early-publish.persistent',
-                        'early-publish.clean', 'late-publish', 'completed-after-resume', 'second-loss', 'nothing-carried', 'lost-before-connack', 'qos0-queued']}
+                        'early-publish.clean', 'late-publish', 'completed-after-resume', 'second-loss', 'nothing-carried', 'lost-before-connack', 'qos0-queued', 'near-wrap']}
 
 KINDS = ('publish', 'PUBACK', 'PUBREC', 'PUBCOMP', 'advance', 'LOSS')
 
@@ -35,6 +35,10 @@ def h_persist(eng, params):
     profile = params['profile']
     flow = Flow(eng, profile, clean=False)
     w = flow.w
+    if params.get('near_wrap'):
+        # the identifier counter shortly before the 16-bit wrap: identifiers of one session straddle it
+        w.fac.id = eng.int('counter', 65531, 65535)
+        eng.count('near-wrap')
     flow.open()
     flow.set_window()
     for rnd in range(params['rounds']):
@@ -150,6 +154,11 @@ def h_persist(eng, params):
                         and any(p['type'] == 'PUBLISH' and all_eq(p['topic'], r.topic) is True for (st, cc, p) in allp if st <= cs)]
             unsent = [r for r in carried + ([early] if early is not None else []) if r is not None and stages.get(r.order, 'new') in ('held', 'new')
                       and r not in sent_now]
+            if sent_now:
+                # ... and no further than that: a message is first transmitted only into a free slot
+                eng.check(len(inflight) + len(sent_now) <= c2.window, 'released-beyond-window',
+                          'after the persistent CONNACK %d inherited publishes are in flight and %d more were released although the window does not allow it' % (
+                              len(inflight), len(sent_now)), sig='released-beyond-window')
             if unsent:
                 eng.check(len(inflight) + len(sent_now) >= c2.window, 'held-back-not-released',
                           'after the persistent CONNACK %d publishes are in flight, window is larger, and %d accepted messages are still held back' % (
@@ -228,6 +237,10 @@ def shards(tier):
                                     'broker': 'ack-all', 'lost_before_connack': True}))
             out.append(('persist', {'profile': profile, 'rounds': 1, 'k': 4 if T else 3, 'first': first, 'newwindow': 0, 'early': 1, 'late': 0,
                                     'broker': 'ack-all', 'qos0': True}))
+        for first in ('publish', 'PUBACK'):
+            for nw in (0, 1):
+                out.append(('persist', {'profile': profile, 'rounds': 1, 'k': 4 if T else 3, 'first': first, 'newwindow': nw, 'early': 0, 'late': 0,
+                                        'broker': 'ack-all', 'near_wrap': True}))
         for early in (0, 1):
             for early2 in (0, 1):
                 for first in (('publish', 'PUBREC', 'LOSS') if not T else KINDS):
@@ -240,7 +253,7 @@ META = {
     'rule': 'persistent-session client, window symbolic; per round up to k free steps from {publish(QoS symbolic 1..2), PUBACK/PUBREC/PUBCOMP with symbolic identifier, '
             'advance(dt symbolic)} cut by a loss at any point; then a rebuilt protocol (optionally setWindowSize(symbolic)), connect(cleanStart symbolic), 0..1 publish before '
             'CONNACK, CONNACK(session byte symbolic), 0..1 publish after; finally a broker that acknowledges everything twice, or stays silent, and 1000 s',
-    'bounds': {'quick': 'one round with k<=3, two rounds with k<=2; variants: the rebuilt connection is lost before its CONNACK; publishes of QoS 0..2', 'thorough': 'one round with k<=4, two rounds with k<=3'},
+    'bounds': {'quick': 'one round with k<=3, two rounds with k<=2; variants: the rebuilt connection is lost before its CONNACK; publishes of QoS 0..2; identifier counter placed at 65531..65535 (symbolic)', 'thorough': 'one round with k<=4, two rounds with k<=3'},
     'stubs': ['fake transport with asynchronous loss', 'twisted task.Clock', 'jitter: fixed sequence'],
     'outside': ['more than two losses in a row', 'subscribe/unsubscribe across the loss (C07)'],
     'assumptions': ['acknowledgement types fit the exchange they may address'],
